@@ -108,7 +108,7 @@ func TestC15(t *testing.T) {
 	cliCases(t, "C15", "apply-linear-correction")
 	const day = 24 * nsHour
 	ratios := [][2]int64{{25000, 23976}, {23976, 25000}, {3000, 2997}, {2997, 3000}, {24000, 23976}, {1, 2}, {2, 1}, {1, 1}, {1001, 1000}, {24, 25}, {25, 24}}
-	rapidCheck(t, "C15/random", tier(40000, 4000000), func(rt *rapid.T) {
+	rapidCheck(t, "C15/random", tier(40000, 16000000), func(rt *rapid.T) {
 		cues := genCues(rt, 0, 6, day, opTextsWide)
 		a1 := genInstant(rt, day, "a1")
 		a2 := genInstant(rt, day, "a2")
